@@ -125,7 +125,17 @@ def gen_circuit(rng, profile):
                 cmds.append(plain)
             else:
                 cmds.insert(len(cmds) - 1, plain)
-    return {"n": n, "cmds": cmds}
+    # the front end rejects any use of a deleted mode (as target or as source of a measured parameter): drop such commands
+    # (false alarm of seed 23: a repeated feed-forward gate was emitted after the Del of its mode)
+    dead, kept = set(), []
+    for c in cmds:
+        src = c["p0"][1] if c["name"] == "RgateM" else None
+        if set(c["modes"]) & dead or src in dead:
+            continue
+        kept.append(c)
+        if c["name"] == "Del":
+            dead.add(c["modes"][0])
+    return {"n": n, "cmds": kept}
 
 
 def ser(c):
